@@ -114,6 +114,10 @@ def inline(files, root="a.json", max_depth=40):
 # -------------------------------------------------------------- strategy
 # repeated titles are common (pool of few); "<Title>_<n>" collides with the names that de-duplication hands out
 SAFE_TITLES = ["Widget", "my title", "a1b", "Thing", "widget", "Widget", "Widget_1", "widget_1", "Thing_1", "Widget_2"]
+# property names that are also names the generated class BODY looks up (class names from titles, imported element
+# classes, typing names, builtins): `Widget: Maybe[Widget] = Property(Widget)`
+BODY_NAMES = ["Widget", "Thing", "String", "Property", "Maybe", "List", "Any", "Object", "int", "str", "Array", "Element",
+              "Union", "__debug__", "None", "True"]
 DESCRIPTIONS = ["plain", 'He said "hi"', "back\\slash", 'trailing"', "two\nlines", "", "日本 é", '"""',
                 "windows\r\nline ends", "bare\rreturn", "tab\there", "form\x0cfeed", "nbsp\u00a0and\u2028separator",
                 "nul\x00char", "trailing backslash\\", "{braces} %s"]
@@ -209,7 +213,8 @@ def object_schema(draw, cfg, refs, depth):
     if cfg.descriptions and draw(st.integers(0, 3)) == 0:
         s["description"] = draw(st.sampled_from(DESCRIPTIONS))
     names = draw(st.lists(st.sampled_from(PROP_NAMES + ["items", "0", "anyOf", "é", "examples", "$comment", "definitions",
-                                                          "default", "title"]), min_size=0, max_size=3, unique=True))
+                                                          "default", "title"] + BODY_NAMES), min_size=0, max_size=3,
+                          unique=True))
     if names:
         s["properties"] = {n: draw(sub_schema(cfg, refs, depth)) for n in names}
         req = draw(st.lists(st.sampled_from(names), max_size=2, unique=True))
@@ -231,6 +236,13 @@ def object_schema(draw, cfg, refs, depth):
         s["propertyNames"] = {"maxLength": draw(st.integers(1, 4))}
     if draw(st.integers(0, 8)) == 0:
         s["default"] = draw(st.sampled_from([{}, {"a": 1}, None, 0]))
+    inline_objects = [n for n, v in (s.get("properties") or {}).items()
+                      if isinstance(v, dict) and v.get("type") == "object"]
+    if inline_objects and draw(st.integers(0, 2)) == 0:
+        # a structurally identical sibling under ANOTHER title (equal classes with different names, both inline)
+        twin = copy.deepcopy(s["properties"][draw(st.sampled_from(inline_objects))])
+        twin["title"] = draw(st.sampled_from(["Twin", "Other thing", "Widget_2", "ZTwin"]))
+        s["properties"][draw(st.sampled_from(["zz", "a0", "twin"]))] = twin
     return s
 
 
